@@ -116,6 +116,9 @@ def truth(v):
     raise Unsupported('truthiness of %r' % (type(v),))
 
 
+REAL_TOL = 0.0      # set by the concrete checker for contracts over the reals (level R)
+
+
 def val_lt(a, b):
     if concrete(a) and concrete(b):
         return a < b
@@ -125,6 +128,14 @@ def val_lt(a, b):
 def compare(op, a, b):
     """op in '<','<=','>','>=','==','!='; returns a Bool value."""
     if concrete(a) and concrete(b):
+        if REAL_TOL and isinstance(a, float) or REAL_TOL and isinstance(b, float):
+            # level R (mathematical reals): concrete replays compare doubles up to rounding
+            import math
+            if not (math.isnan(a) or math.isnan(b) or math.isinf(a) or math.isinf(b)):
+                tol = REAL_TOL * max(1.0, abs(a), abs(b))
+                eq = abs(a - b) <= tol
+                return {'<': a < b and not eq, '<=': a <= b or eq, '>': a > b and not eq, '>=': a >= b or eq,
+                        '==': eq, '!=': not eq}[op]
         return {'<': a < b, '<=': a <= b, '>': a > b, '>=': a >= b, '==': a == b, '!=': a != b}[op]
     if isinstance(a, Opt) or isinstance(b, Opt):
         if op in ('==', '!='):
